@@ -53,9 +53,9 @@ func dagPasses(id, tier string) []dagPass {
 	}
 	if id == "C16" {
 		if !thorough {
-			ps = append(ps, dagPass{"C16hist", false, 0, 1})
+			ps = append(ps, dagPass{"C16hist", false, 0, 1}, dagPass{"C16sort", false, 0, 2})
 		} else {
-			ps = append(ps, dagPass{"C16hist", false, 1, 1})
+			ps = append(ps, dagPass{"C16hist", false, 1, 1}, dagPass{"C16sort", false, 0, 3})
 		}
 	}
 	if v, err := strconv.Atoi(os.Getenv("VERIF_K")); err == nil {
